@@ -83,3 +83,22 @@ json.dump(gref, open(os.path.join(HERE, 'reference', 'grammar.json'), 'w'), inde
 for lang in grammar.LANGS:
     print(lang, len(gref[lang]['grammar']['productions']), 'productions,',
           sum(len(v) for v in gref[lang]['lexer']['rules'].values()), 'lexer rules')
+
+# inventory of functions (stonelint/inline.py: a function that is not in it is "new")
+from stonelint.inline import _func_table
+ft = _func_table({name: m.tree for name, m in pm0.modules.items()})
+json.dump({'note': 'qualified names of the top-level functions and methods at /repo HEAD; a '
+                   'function outside this list is new and is inlined into its callers before '
+                   'the rules run (stonelint/inline.py)',
+           'functions': sorted(ft)}, open(os.path.join(HERE, 'reference', 'functions.json'), 'w'),
+          indent=0)
+print(len(ft), 'functions in the inventory')
+
+# path formulas of every effect of every function (stonelint/effects.py)
+from stonelint import effects
+eff = effects.build(pm1)
+json.dump({'note': 'per function and effect (raise / return / flow / assignment / call statement / '
+                   'tracked call): the path formula of each occurrence at /repo HEAD; see '
+                   'stonelint/effects.py', 'effects': eff},
+          open(os.path.join(HERE, 'reference', 'effects.json'), 'w'), indent=0, sort_keys=True)
+print(len(eff), 'functions with effects,', sum(len(v) for v in eff.values()), 'effects')
